@@ -20,7 +20,7 @@ REQUIRED = [
     "fact_get_reads_timestamp_first", "fact_check_order", "fact_add_deletes_previous", "fact_expiry_comparisons",
     "fact_update_service_shape", "fact_restart_after_wipe", "fact_service_writers_locked", "fact_loops_visit_everything",
     "fact_comparisons_exact", "fact_exists_key", "fact_background_jobs", "fact_wiring", "fact_store_guards_credential_id",
-    "credential_without_id_refused", "fact_set_timestamp_unconditional", "overlapping_polls_heal", "overlapping_polls_can_diverge",
+    "credential_without_id_refused", "fact_set_timestamp_unconditional", "overlapping_polls_heal", "overlapping_polls_can_diverge", "overlapping_poll_across_wipe_diverges",
 ]
 
 
@@ -263,6 +263,8 @@ def run(ctx):
         ckeys = {(r["subject"], r["id"]): r for r in C["rows"]}
         if prev and prev["C"]["seed"] not in ("-", C["seed"]):
             wipes += 1
+            if inflight > 0:
+                interleaved = True   # the replica was wiped while a response (requested for the old copy) is in flight
         # at most one entry per subject (server and replica)
         for side, name in ((S, "server"), (C, "client")):
             subs = [r["subject"] for r in side["rows"]]
@@ -369,7 +371,7 @@ def run(ctx):
                 report("C16:replica-seed-differs-after-quiescent-polls", "client seed differs from the server's after two quiescent polls", i)
             if (missing or stale) and interleaved:
                 report("C16:replica-diverges-after-interleaved-overlapping-polls",
-                       f"two pollers of one client interleaved (a poll started while another response was in flight): client lacks {sorted(missing)}, keeps {sorted(stale)}", i)
+                       f"overlapping polls of one client (a poll started, or the replica was wiped, while another response was in flight): client lacks {sorted(missing)}, keeps {sorted(stale)}", i)
                 missing, stale = set(), set()
             if missing:
                 sig = "C16:replica-misses-entry-after-seed-change" if wipes else "C16:replica-misses-entry"
